@@ -351,6 +351,7 @@ namespace plan
       long ofc = modn(op.arg(2), m.classes.size() + 2);
       if (ofc >= 2 && !m.classes[ofc - 2].is_sv)
         c.ofield_class = static_cast<int>(ofc) - 2;
+      c.ofield_twice = c.ofield_class >= 0 && (op.arg(3) & 1);
       m.classes.push_back(c);
     }
     else if (n == "inst")
@@ -706,6 +707,15 @@ namespace plan
       for (size_t i = 0; i < top.objs.size(); ++i)
         if (top.objs[i].first != a.first && m.root_of(top.objs[i].second) == m.root_of(a.second))
           cands.push_back(i);
+      if ((op.arg(4) & 1) && a.first.size() == 2)
+      { // prefer another field reached through the same variable / instance (`v.g0 != v.h0`)
+        std::vector<size_t> same;
+        for (size_t i : cands)
+          if (top.objs[i].first.size() == 2 && top.objs[i].first[0] == a.first[0])
+            same.push_back(i);
+        if (!same.empty())
+          cands = same;
+      }
       if (cands.empty())
         return;
       auto &c = top.objs[cands[modn(op.arg(2), cands.size())]];
@@ -753,6 +763,26 @@ namespace plan
         p.rparams.push_back("a" + std::to_string(m.preds.size()) + "_" + std::to_string(i));
       m.preds.push_back(p);
     }
+    else if (n == "spred")
+    { // a predicate that extends an earlier global predicate: it inherits parameters, temporal kind and rule
+      if (m.unit != 0 || m.preds.size() >= 5)
+        return;
+      std::vector<int> sup;
+      for (size_t i = 0; i < m.preds.size(); ++i)
+        if (m.preds[i].cls < 0)
+          sup.push_back(static_cast<int>(i));
+      if (sup.empty())
+        return;
+      PredD p;
+      p.name = "P" + std::to_string(m.preds.size());
+      p.super = sup[modn(op.arg(0), sup.size())];
+      p.kind = m.preds[p.super].kind;
+      p.rparams = m.preds[p.super].rparams;
+      p.own_from = p.rparams.size();
+      if (modn(op.arg(1), 2))
+        p.rparams.push_back("a" + std::to_string(m.preds.size()) + "_0");
+      m.preds.push_back(p);
+    }
     else if (n == "cpred")
     { // a predicate declared inside a plain (non smart-type) class, possibly temporal
       if (m.unit != 0 || m.preds.size() >= 5)
@@ -797,6 +827,9 @@ namespace plan
       int qd = static_cast<int>(op.arg(1));
       if (m.preds[qd].cls != m.preds[p].cls && m.preds[qd].cls >= 0)
         return; // a class predicate is reachable without scope only from its own class
+      for (int a = qd; a >= 0; a = m.preds[a].super)
+        if (a == p && qd != p)
+          return; // the sub-goal's predicate extends this one: its rule would contain this sub-goal again, without end
       int nsub = 0;
       for (auto &bi : m.preds[p].body)
         if (bi->k == BodyItem::SUBGOAL)
@@ -833,9 +866,19 @@ namespace plan
         for (size_t si = 0; si < m.insts.size(); ++si)
           if (m.classes[m.preds[p].cls].is_sv ? m.insts[si].cls == m.preds[p].cls : m.is_subclass(m.insts[si].cls, m.preds[p].cls))
             cands.push_back(static_cast<int>(si));
-        if (cands.empty())
+        // the scope is an instance or, one time in three when there is one, an object variable over the class: the atom's
+        // tau is then decided by the search (unification must respect it; placement/forbid resolvers of state variables)
+        std::vector<std::string> vcands;
+        if (!m.classes[m.preds[p].cls].is_sv)
+          for (auto &v : m.ovars)
+            if (m.is_subclass(v.cls, m.preds[p].cls))
+              vcands.push_back(v.name);
+        if (!vcands.empty() && modn(op.arg(pos) / 7, 3) == 0)
+          it->scope = {vcands[modn(op.arg(pos), vcands.size())]};
+        else if (cands.empty())
           return;
-        it->scope = {m.insts[cands[modn(op.arg(pos), cands.size())]].name};
+        else
+          it->scope = {m.insts[cands[modn(op.arg(pos), cands.size())]].name};
       }
       pos++;
       it->args = parse_args(op, pos, p, top);
